@@ -1447,3 +1447,51 @@ def type_resolution_table(ctx: Ctx, rule: str = "type-resolution"):
     ctx.count("categorical type-resolution cases", n)
     ctx.ob(rule, where, bad[:3] or f"{n} model dimensions", "categorical date iff some category carries a date; logical pattern and array sub-references first", not bad,
            "a wave variable taken for a plain categorical is not smoothed (and its differences / population estimates follow the plain rules)")
+
+
+def block_nan_by_some_subtotal(ctx: Ctx, rule: str = "block-nan.per-vector"):
+    """Whether an inserted cell is NaN is a property of ITS OWN row / column subtotal (a difference under the direction's
+    flag).  A whole block of NaN (`np.full(<shape>, np.nan)`) returned under a test that asks whether SOME subtotal of an
+    axis is a difference (`any(... for subtotal in subtotals)`) blanks the plain subtotals' cells together with the
+    differences'."""
+    from ..loader import AnalysisError
+
+    def hits_in(fn):
+        localfns = {n.name: n for n in ast.walk(fn) if isinstance(n, ast.FunctionDef) and n is not fn}
+        parents = {c: p for p in ast.walk(fn) for c in ast.iter_child_nodes(p)}
+
+        def asks_any(test):
+            if any(isinstance(c, ast.Call) and u(c.func) in ("any", "np.any") and any(isinstance(g, (ast.GeneratorExp, ast.ListComp)) and "subtotal" in u(g).lower() for g in c.args) for c in ast.walk(test)):
+                return True
+            return any(isinstance(c, ast.Call) and isinstance(c.func, ast.Name) and c.func.id in localfns and asks_any(localfns[c.func.id]) for c in ast.walk(test))
+
+        out = []
+        for r in ast.walk(fn):
+            if isinstance(r, ast.Return) and isinstance(r.value, ast.Call) and u(r.value.func) in ("np.full", "np.full_like") and any(u(a) in ("np.nan", "np.NaN", "float('nan')") for a in r.value.args):
+                x = r
+                while x in parents and parents[x] is not fn:
+                    x = parents[x]
+                    if isinstance(x, ast.FunctionDef):
+                        break
+                    if isinstance(x, ast.If) and asks_any(x.test):
+                        out.append(u(r.value)[:80])
+                        break
+        return out
+
+    ctl = ast.parse("def _intersections(self):\n    def has_difference(subtotals):\n        return any(len(subtotal.subtrahend_idxs) > 0 for subtotal in subtotals)\n    if self._diff_rows_nan and has_difference(self._row_subtotals):\n        return np.full((2, 2), np.nan)\n    return self._other\ndef ok(self, subtotal):\n    if self._diff_cols_nan and len(subtotal.subtrahend_idxs) > 0:\n        return np.full(self._nrows, np.nan)\n    return self._sum(subtotal)\n")
+    if len(hits_in(ctl.body[0])) != 1 or hits_in(ctl.body[1]):
+        raise AnalysisError(f"{rule}: the controls are no longer recognised")
+    n, hits = 0, []
+    for short in ("matrix/subtotals.py", "stripe/insertion.py"):
+        mod = ctx.repo.module(short)
+        for ci in mod.classes.values():
+            for m in ci.members.values():
+                n += 1
+                for t in hits_in(m.node):
+                    hits.append((f"{short}::{ci.name}.{m.name}", t))
+    ctx.count("subtotal members scanned for block-wide NaN", n)
+    ctx.require_min("subtotal members scanned for block-wide NaN", 30)
+    for where, t in hits:
+        ctx.violated(rule, where, t, "NaN per inserted vector, decided by that vector's own subtotal", "the cells of a plain subtotal are blanked because some OTHER subtotal of the axis is a difference")
+    if not hits:
+        ctx.held(rule, "subtotal classes", f"{n} members, no whole block of NaN under an any-subtotal test", "", "controls recognised")
